@@ -166,30 +166,38 @@ func c17Pure(tier string) *PureResult {
 		res.Evaluations += 2
 	}
 	// environment overrides win over file values
-	for _, fileVal := range []int{0, 3} {
-		for _, envT := range []string{"", "5"} {
-			for _, envM := range []string{"", "4"} {
-				os.Setenv("GO_DCP__DCP_GROUP_MEMBERSHIP_TOTALMEMBERS", envT)
-				os.Setenv("GO_DCP__DCP_GROUP_MEMBERSHIP_MEMBERNUMBER", envM)
-				var c config.Dcp
-				c.Dcp.Group.Membership.TotalMembers = fileVal
-				c.Dcp.Group.Membership.MemberNumber = fileVal
-				c.ApplyDefaults()
-				wantT, wantM := fileVal, fileVal
-				if fileVal == 0 {
-					wantT, wantM = 1, 1
-				}
-				if envT != "" {
-					wantT = 5
-				}
-				if envM != "" {
-					wantM = 4
-				}
-				res.Evaluations++
-				res.Distinct++
-				if c.Dcp.Group.Membership.TotalMembers != wantT || c.Dcp.Group.Membership.MemberNumber != wantM {
-					add(fmt.Sprintf("env override: file=%d envTotal=%q envMember=%q -> total=%d member=%d, want %d/%d", fileVal, envT, envM,
-						c.Dcp.Group.Membership.TotalMembers, c.Dcp.Group.Membership.MemberNumber, wantT, wantM))
+	for _, mtype := range []string{"", "static", "couchbase", "kubernetesStatefulSet"} {
+		for _, fileM := range []int{0, 3} {
+			for _, fileVal := range []int{0, 2, 3} {
+				for _, envT := range []string{"", "5"} {
+					for _, envM := range []string{"", "4"} {
+						os.Setenv("GO_DCP__DCP_GROUP_MEMBERSHIP_TOTALMEMBERS", envT)
+						os.Setenv("GO_DCP__DCP_GROUP_MEMBERSHIP_MEMBERNUMBER", envM)
+						var c config.Dcp
+						c.Dcp.Group.Membership.Type = mtype
+						c.Dcp.Group.Membership.TotalMembers = fileVal
+						c.Dcp.Group.Membership.MemberNumber = fileM
+						c.ApplyDefaults()
+						wantT, wantM := fileVal, fileM
+						if fileVal == 0 {
+							wantT = 1
+						}
+						if fileM == 0 {
+							wantM = 1
+						}
+						if envT != "" {
+							wantT = 5
+						}
+						if envM != "" {
+							wantM = 4
+						}
+						res.Evaluations++
+						res.Distinct++
+						if c.Dcp.Group.Membership.TotalMembers != wantT || c.Dcp.Group.Membership.MemberNumber != wantM {
+							add(fmt.Sprintf("membership type %q, file total=%d member=%d, env total=%q member=%q -> total=%d member=%d, want %d/%d", mtype, fileVal, fileM, envT, envM,
+								c.Dcp.Group.Membership.TotalMembers, c.Dcp.Group.Membership.MemberNumber, wantT, wantM))
+						}
+					}
 				}
 			}
 		}
@@ -489,6 +497,26 @@ func c17Sizes(tier string, res *PureResult, add func(string)) {
 		res.Evaluations += 3
 		if helpers.ResolveUnionIntOrStringValue(s) != i || helpers.ResolveUnionIntOrStringValue(i) != i || helpers.ResolveUnionIntOrStringValue(uint(i)) != i {
 			add(fmt.Sprintf("plain integer %d does not resolve to itself", i))
+		}
+	}
+	// plain decimal integers written with leading zeros or a sign (quoted YAML values, ${VAR} substitutions,
+	// values of the metadata.config map): they denote the decimal number
+	for _, w := range []struct {
+		s string
+		v int
+	}{{"00", 0}, {"07", 7}, {"0100", 100}, {"0512", 512}, {"016777216", 16777216}, {"0089", 89}, {"000999", 999}, {"+5", 5}} {
+		got, bad := func() (r int, bad bool) {
+			defer func() {
+				if recover() != nil {
+					bad = true
+				}
+			}()
+			return helpers.ResolveUnionIntOrStringValue(w.s), false
+		}()
+		res.Evaluations++
+		res.Distinct++
+		if bad || got != w.v {
+			add(fmt.Sprintf("the integer string %q resolves to %d (panic=%v), it denotes %d", w.s, got, bad, w.v))
 		}
 	}
 }
